@@ -187,6 +187,11 @@ pub fn drive(a: &Args) {
         let kind = kinds[(run as usize) % kinds.len()];
         let caps = [0usize, 1, 5, 16, 40, 64, 100, 512, 1432, 70_000];
         let cap = caps[rng.random_range(0..caps.len())];
+        // scenario classes that must not depend on the seed: in the first pass over the kinds a non-blocking buffered sink
+        // gets a small buffer (many datagrams: the undrained receiver queue fills up and the socket refuses), in the
+        // second pass a large one
+        let cycle = run as usize / kinds.len();
+        let cap = if kind.ends_with("-nb") && kind.starts_with('b') && cycle % 2 == 0 { [1usize, 5, 16][cycle / 2 % 3] } else { cap };
         let buffered = kind.starts_with('b') || kind.starts_with("q-");
         let nonblock = kind.ends_with("-nb");
         let mut weak: Option<std::sync::Weak<BufferedUdpMetricSink>> = None;
@@ -255,7 +260,9 @@ pub fn drive(a: &Args) {
         take_hooks();
         let mut wire = wire;
         let mut old_receivers: Vec<UnixDatagram> = vec![];
-        let rebind_at = if kind.contains("unix") && rng.random_bool(0.6) { rng.random_range(1..ops) } else { u64::MAX };
+        let mut last_failed = false;
+        // the server behind a Unix path is replaced in two of every three passes over the kinds (never left to the seed)
+        let rebind_at = if kind.contains("unix") && cycle % 3 != 2 { rng.random_range(1..(ops * 2 / 3).max(2)) } else { u64::MAX };
         for opi in 0..ops {
             if opi == rebind_at {
                 // the server behind the path is replaced (restart / hand-over): the sink was given a PATH and
@@ -273,7 +280,8 @@ pub fn drive(a: &Args) {
                     unreachable!();
                 }
             }
-            let flush = buffered && rng.random_range(0..10) == 0;
+            // a caller whose last call failed often simply flushes (again) next
+            let flush = buffered && (rng.random_range(0..10) == 0 || (last_failed && rng.random_bool(0.5)));
             let text = if flush {
                 String::new()
             } else {
@@ -305,7 +313,8 @@ pub fn drive(a: &Args) {
                 evs.push(json!(null));
             }
             // a non-blocking Unix receiver is left undrained most of the time so that its queue fills up
-            let drain_now = !((nonblock && kind.contains("unix")) || kind == "spy") || rng.random_bool(0.15);
+            // (in every other pass over the kinds not at all during the first half of the run: the queue certainly fills)
+            let drain_now = !((nonblock && kind.contains("unix")) || kind == "spy") || (rng.random_bool(0.15) && !(cycle % 2 == 0 && opi < ops / 2));
             // sockets that used to be at the path are emptied at once (a blocking sender must never wait on them)
             {
                 let mut b = [0u8; 2048];
@@ -326,6 +335,7 @@ pub fn drive(a: &Args) {
                 }
                 stray += resolve(&mut evs, &mut outstanding, got, errkind).len();
             }
+            last_failed = matches!(r, Ok(Err(_)));
             match r {
                 Ok(Ok(n)) => evs.push(json!({"ev":"ret","ok":true,"n":n,"kind":""})),
                 Ok(Err(e)) => evs.push(json!({"ev":"ret","ok":false,"n":0,"kind":io_kind(&e)})),
